@@ -1,5 +1,5 @@
 (* Proofs for C19: ELF section iteration. *)
-Require Import Bytes Outcome Layout Common TagType Mbi MbiTags Strings MbiAccess BytesFacts ArithFacts CastFacts.
+Require Import Bytes Outcome Layout Common TagType Mbi MbiTags Strings MbiAccess BytesFacts ArithFacts CastFacts StringFacts.
 From Coq Require Import Lia ZArith ZifyN ZifyBool ZifyNat String.
 Ltac Zify.zify_post_hook ::= Z.div_mod_to_equations.
 Open Scope N_scope.
@@ -249,6 +249,57 @@ Proof.
     rewrite !slice_slice by lia. rewrite N.add_0_r. repeat split; reflexivity.
   - intros N40 N64. destruct (N.eqb_spec (es_es s) 40); [contradiction|].
     destruct (N.eqb_spec (es_es s) 64); [contradiction|]. reflexivity.
+Qed.
+
+(* ---- small list facts for the external string ---- *)
+Lemma nth_skipn_add {A} (l : list A) o j d : nth j (skipn o l) d = nth (o + j) l d.
+Proof.
+  revert l. induction o as [|o IH]; intros l; [reflexivity|].
+  destruct l as [|x l]; [destruct j; reflexivity|]. cbn [skipn]. rewrite IH. reflexivity.
+Qed.
+Lemma nth_firstn_lt {A} (l : list A) n j d : (j < n)%nat -> nth j (firstn n l) d = nth j l d.
+Proof.
+  revert l j. induction n as [|n IH]; intros l j H; [lia|].
+  destruct l as [|x l]; [destruct j; reflexivity|]. destruct j as [|j]; [reflexivity|]. cbn [firstn nth]. apply IH. lia.
+Qed.
+Lemma nthb_slice l o n j : j < n -> nthb (slice l o n) j = nthb l (o + j).
+Proof.
+  intros H. unfold nthb, slice. rewrite nth_firstn_lt by lia. rewrite nth_skipn_add. f_equal. f_equal. lia.
+Qed.
+Lemma Val_inj' {A} (a b : A) : Val a = Val b -> a = b.
+Proof. intros H. injection H as H. exact H. Qed.
+
+(* ---- names: name() dereferences exactly (string_table + name_index) mod 2^64 in the external memory ------ *)
+(* the spec of a resolved name: the bytes before the first NUL at address a of ext, UTF-8 checked *)
+Definition name_at (ext : mem) (a : N) : res (list byte) :=
+  bs <- ext_cstr ext a ;; if utf8_valid bs then Val bs else Err EUtf8.
+
+Lemma ext_cstr_spec ext a bs : ext_cstr ext a = Val bs ->
+  m_base ext <= a /\ a + len bs < m_base ext + len (m_bytes ext) /\
+  bs = slice (m_bytes ext) (a - m_base ext) (len bs) /\
+  (forall j, j < len bs -> nthb bs j <> 0) /\ nthb (m_bytes ext) (a - m_base ext + len bs) = 0.
+Proof.
+  unfold ext_cstr. destruct (N.leb_spec (m_base ext) a) as [Hlo|Hlo]; [|discriminate].
+  destruct (N.ltb_spec a (m_base ext + len (m_bytes ext))) as [Hhi|Hhi]; [|discriminate]. cbn [andb].
+  set (o := a - m_base ext). set (tl := slice (m_bytes ext) o (len (m_bytes ext) - o)).
+  destruct (index_nul tl) as [i|] eqn:Ei; [|discriminate].
+  intros H. apply Val_inj' in H. apply index_nul_some in Ei. destruct Ei as (Hi & Hz & Hnz).
+  assert (Ltl : len tl = len (m_bytes ext) - o) by (unfold tl; rewrite len_slice; lia).
+  assert (Lbs : len bs = i) by (subst bs; rewrite len_slice; lia).
+  split; [exact Hlo|]. split; [lia|]. split; [|split].
+  - rewrite Lbs. rewrite <- H. unfold tl. rewrite slice_slice by lia. rewrite N.add_0_r. reflexivity.
+  - intros j Hj. rewrite <- H. rewrite nthb_slice by lia. rewrite N.add_0_l. apply Hnz. lia.
+  - rewrite Lbs. unfold tl in Hz. rewrite nthb_slice in Hz by lia. exact Hz.
+Qed.
+
+Lemma elf_name_closed p m ext tag_off L s : section_ok m tag_off L s ->
+  let b := m_bytes m in
+  (es_es s = 40 -> elf_name p m ext s = name_at ext ((le (slice b (es_str s + 12) 4) + le (slice b (es_inner s) 4)) mod pow2_64)) /\
+  (es_es s = 64 -> elf_name p m ext s = name_at ext ((le (slice b (es_str s + 16) 8) + le (slice b (es_inner s) 4)) mod pow2_64)).
+Proof.
+  intros Hs b. destruct (elf_fields_closed p m tag_off L s Hs) as (H40 & H64 & _).
+  split; intros E; [destruct (H40 E) as (Hn & _ & _ & _ & _ & _ & Hst) | destruct (H64 E) as (Hn & _ & _ & _ & _ & _ & Hst)];
+    unfold elf_name, elf_name_addr, name_at; rewrite Hst, Hn; reflexivity.
 Qed.
 
 Example elf_example :
